@@ -1,7 +1,12 @@
 """C09 — literals are read as the value IEC 61131-3 assigns them, or rejected."""
-import re
-from framework import kernel, Finding
-from . import kanicommon as KC
+import re, time, json
+import z3
+from framework import kernel, Finding, fn_paths, Part, par_map, merge_part, replay_factory
+from mirsym.machine import *
+from mirsym.mirread import Unsupported
+from . import kanicommon as KC, lexcommon as LC
+
+_CTX = None
 
 @kernel('K3a kani.integer_and_duration_values')
 def k3a(ctx, kr):
@@ -31,4 +36,209 @@ def k3a(ctx, kr):
     KC.apply(kr, ['signed_integer_to_i128', 'integer_to_small', 'integer_to_fixed_point_not_truncated', 'dur_seconds_whole_not_wrapped'], mk)
     kr.exhaustive = True
 
-KERNELS = [k3a]
+
+# ---------------------------------------------------------------------------------------------- K4 date / time-of-day grammar actions on symbolic digit strings
+def _digits(M, name, n):
+    bs = [M.fresh_bv('%s%d' % (name, i), 8) for i in range(n)]
+    for b in bs: M.assume(z3.And(z3.UGE(b, 48), z3.ULE(b, 57)))
+    return bs
+def _val(bs, w=64):
+    v = z3.BitVecVal(0, w)
+    for b in bs: v = v * 10 + z3.ZeroExt(w - 8, b - 48)
+    return v
+def _days_in_month_term(Y, MO):
+    leap = z3.Or(z3.And(z3.URem(Y, 4) == 0, z3.URem(Y, 100) != 0), z3.URem(Y, 400) == 0)
+    dim = z3.BitVecVal(31, 64)
+    for mm, nd in ((4, 30), (6, 30), (9, 30), (11, 30)): dim = z3.If(MO == mm, z3.BitVecVal(nd, 64), dim)
+    return z3.If(MO == 2, z3.If(leap, z3.BitVecVal(29, 64), z3.BitVecVal(28, 64)), dim)
+
+def _k4_job(job):
+    kind, lens = job
+    ctx = _CTX; part = Part()
+    P = ctx.program()
+    TT = P.enums['TokenType']
+    text = {'date': 'PROGRAM p\nVAR\n  x : DATE := DATE#1111-22-33;\nEND_VAR\nEND_PROGRAM\n', 'tod': 'PROGRAM p\nVAR\n  x : TIME_OF_DAY := TOD#11:22:33;\nEND_VAR\nEND_PROGRAM\n'}[kind]
+    data = text.encode()
+    M0, e0, b0, L0, t0, LM = LC.tokenize_machine(ctx, len(data), bytes_=list(data))
+    k_tok = P.find_fn('ironplc-parser', 'lexer::tokenize'); k_p = P.find_fn('ironplc-parser', 'parser::parse_library')
+    r0 = M0.explore(lambda M: M.call_fn(k_tok, [Ref(Cell(Str(list(data)))), Ref(Cell(Agg('FileId', [Str('f.st')])))]))
+    if len(r0) != 1 or r0[0].inconclusive or r0[0].panic: part.inconc('template tokenization failed'); return part
+    tokens0 = r0[0].result.f[0]
+    idx = {}
+    for i, t in enumerate(tokens0.items):
+        c = t.f[4].conc()
+        if c in ('1111', '11'): idx['a'] = i
+        elif c == '22': idx['b'] = i
+        elif c == '33': idx['c'] = i
+    if len(idx) != 3: part.inconc('literal tokens not found in template'); return part
+    M = Machine(P, max_steps=100_000_000); st = {}
+    def entry(M):
+        tokens = deep_clone(tokens0)
+        for nm, n in zip('abc', lens):
+            bs = _digits(M, nm, n); st[nm] = bs
+            tokens.items[idx[nm]].f[4] = Str(list(bs))
+        return M.call_fn(k_p, [tokens])
+    def on_path(M, pr):
+        part.paths += 1
+        if pr.inconclusive: part.inconc(pr.inconclusive); return
+        A, B, C = _val(st['a']), _val(st['b']), _val(st['c'])
+        s = z3.Solver(); s.add(*pr.pc); s.set('timeout', 60000)
+        def lit(m):
+            f = lambda bs: ''.join(chr(m.eval(x, True).as_long()) for x in bs)
+            return ('DATE#%s-%s-%s' if kind == 'date' else 'TOD#%s:%s:%s') % (f(st['a']), f(st['b']), f(st['c']))
+        def report(role, what, extra):
+            s.push(); s.add(extra)
+            t1 = time.time(); r = s.check(); part.solver_s += time.time() - t1; part.queries += 1
+            if r == z3.sat:
+                L = lit(s.model())
+                src = text.replace('DATE#1111-22-33', L).replace('TOD#11:22:33', L)
+                part.add(role, '%s: %s' % (L, what), {'literal': L, 'source': src}, ('literal_value', (src, kind, L)))
+            elif r == z3.unknown: part.inconc('solver unknown')
+            s.pop()
+        part.nontrivial += 1
+        if kind == 'date': valid = z3.And(z3.ULE(A, 9999), z3.UGE(B, 1), z3.ULE(B, 12), z3.UGE(C, 1), z3.ULE(C, _days_in_month_term(A, B)))
+        else: valid = z3.And(z3.ULT(A, 24), z3.ULT(B, 60), z3.ULT(C, 60))
+        if pr.panic: report('C09/K4/%s/panic' % kind, 'the grammar action panics: ' + pr.panic.msg[:50], z3.BoolVal(True)); return
+        res = pr.result
+        if res.disc != 0:
+            report('C09/K4/%s/valid-literal-rejected' % kind, 'a literal whose fields are all in range is rejected', valid); return
+        # accepted: every field must be in range and be read with its value
+        report('C09/K4/%s/out-of-range-accepted' % kind, 'a literal with a field out of range is accepted (wrapped or truncated) instead of rejected', z3.Not(valid))
+        node = None
+        stack = [res.f[0]]
+        while stack:
+            v = stack.pop()
+            if isinstance(v, Agg) and v.name in ('time::Date', 'time::Time'): node = v; break
+            if isinstance(v, (Agg, EnumV)): stack.extend(v.f)
+            elif isinstance(v, VecV): stack.extend(v.items)
+            elif isinstance(v, Ref): stack.append(v.cell.v)
+        if node is None: part.inconc('literal node not found in the parse result'); return
+        f0, f1, f2 = [tobv(simp(x), 64) if (is_sym(simp(x)) and simp(x).size() == 64) else (z3.ZeroExt(64 - simp(x).size(), simp(x)) if is_sym(simp(x)) else z3.BitVecVal(simp(x) & ((1 << 64) - 1), 64)) for x in node.f[:3]]
+        report('C09/K4/%s/value-altered' % kind, 'an accepted literal is read with a different value in a field', z3.And(valid, z3.Or(f0 != A, f1 != B, f2 != C)))
+        if len(part.samples) < 1: part.samples.append({'kind': kind, 'digits': list(lens), 'result': 'accepted'})
+    M.explore(entry, on_path)
+    part.queries += M.stats['smt']; part.encoded = set(M.encoded); part.models = set(M.models_used)
+    return part
+
+@replay_factory('literal_value')
+def _replay_literal(src, kind, L):
+    def rp(ctx):
+        r = ctx.replay({'cmd': 'parse', 'source': src})
+        if 'panic' in r: return True, r
+        nums = [int(x) for x in re.findall(r'\d+', L.split('#')[1])]
+        if kind == 'date':
+            import calendar
+            y, mo, d = nums; valid = y <= 9999 and 1 <= mo <= 12 and 1 <= d <= (calendar.monthrange(y if y > 0 else 4, mo)[1] if mo != 2 or y != 0 else 29)
+        else:
+            h, mi, s_ = nums; valid = h < 24 and mi < 60 and s_ < 60
+        if not r.get('ok'): return valid, {'literal': L, 'rejected': r.get('diag'), 'fields_in_range': valid}
+        dbg = r['debug']
+        if kind == 'date':
+            m = re.search(r'Date \{ year: (-?\d+), ordinal: (\d+) \}|value: (-?\d+)-(\d+)-(\d+)', dbg)
+            got = dbg[dbg.find('DateLiteral'):][:80]
+            same = ('%04d-%02d-%02d' % tuple(nums)) in got if valid else False
+        else:
+            got = dbg[dbg.find('TimeOfDayLiteral'):][:80]
+            same = ('%d:%02d:%02d' % tuple(nums)) in got if valid else False
+        return (not valid) or (not same), {'literal': L, 'accepted_as': got, 'fields_in_range': valid}
+    return rp
+
+@kernel('K4 parser.date_and_time_of_day_actions')
+def k4(ctx, kr):
+    global _CTX
+    _CTX = ctx
+    jobs = [('date', (4, 2, 2)), ('date', (10, 2, 2)), ('date', (5, 1, 3)), ('tod', (2, 2, 2)), ('tod', (3, 3, 3))]
+    kr.bounds = 'DATE#y-m-d with symbolic digit strings of lengths (4,2,2), (10,2,2), (5,1,3) and TOD#h:m:s with lengths (2,2,2), (3,3,3): every digit symbolic'
+    for part in par_map(_k4_job, jobs): merge_part(kr, part)
+    P = ctx.program()
+    kr.functions = fn_paths(P, getattr(kr, '_enc', set()))[:80]
+    kr.models = sorted(set(kr.models))
+    kr.assumptions = ['time::Date::from_calendar_date / Time::from_hms / Month::try_from by documented range checks', 'str::parse::<u128> by contract']
+    kr.exhaustive = True
+    kr.outside = ['fractional seconds, DATE_AND_TIME, other digit-string lengths']
+
+# ---------------------------------------------------------------------------------------------- K3b FixedPoint::parse with underscores
+def _k3b_job(job):
+    nw, nf = job
+    ctx = _CTX; part = Part()
+    P = ctx.program()
+    key = [k for k in P.items if k[0] == 'ironplc-dsl' and re.fullmatch(r'common::<impl at [^>]*>::parse', k[1]) and 'FixedPoint' in P.items[k].header]
+    if len(key) != 1: part.inconc('FixedPoint::parse: %d candidates' % len(key)); return part
+    M = Machine(P); st = {}
+    def entry(M):
+        def chars(name, n, first_digit):
+            out = []
+            for i in range(n):
+                b = M.fresh_bv('%s%d' % (name, i), 8)
+                M.assume(z3.Or(z3.And(z3.UGE(b, 48), z3.ULE(b, 57)), b == 95) if not (first_digit and i == 0) else z3.And(z3.UGE(b, 48), z3.ULE(b, 57)))
+                out.append(b)
+            return out
+        st['w'] = chars('w', nw, True); st['f'] = chars('f', nf, False)
+        return M.call_fn(key[0], [Ref(Cell(Str(st['w'] + [46] + st['f'])))])
+    def on_path(M, pr):
+        part.paths += 1
+        if pr.inconclusive: part.inconc(pr.inconclusive); return
+        s = z3.Solver(); s.add(*pr.pc); s.set('timeout', 60000)
+        part.nontrivial += 1
+        def digits_value(bs, pad_to=None):
+            # value of the digits with underscores ignored; for the fraction scaled to 15 digits
+            v = z3.BitVecVal(0, 64); nd = z3.BitVecVal(0, 64)
+            for b in bs:
+                isd = b != 95
+                v = z3.If(isd, v * 10 + z3.ZeroExt(56, b - 48), v); nd = z3.If(isd, nd + 1, nd)
+            if pad_to:
+                for k in range(pad_to + 1):
+                    pass
+                scaled = v
+                for k in range(len(bs) + 1):
+                    scaled = z3.If(nd == k, v * (10 ** (pad_to - k)), scaled) if pad_to - k >= 0 else scaled
+                return scaled, nd
+            return v, nd
+        W, _ = digits_value(st['w']); F, nd = digits_value(st['f'], 15)
+        def lit(m): return ''.join(chr(m.eval(x, True).as_long()) for x in st['w']) + '.' + ''.join(chr(m.eval(x, True).as_long()) for x in st['f'])
+        def report(role, what, extra):
+            s.push(); s.add(extra)
+            t1 = time.time(); r = s.check(); part.solver_s += time.time() - t1; part.queries += 1
+            if r == z3.sat:
+                L = lit(s.model()); part.add(role, 'fixed point text %s: %s' % (L, what), {'text': L}, ('fixed_point', (L,)))
+            elif r == z3.unknown: part.inconc('solver unknown')
+            s.pop()
+        if pr.panic: report('C09/K3b/panic', 'FixedPoint::parse panics: ' + pr.panic.msg[:50], z3.BoolVal(True)); return
+        res = pr.result
+        some_frac_digit = nd != 0
+        if res.disc != 0:
+            report('C09/K3b/valid-rejected', 'a fixed point number with at most 15 fractional digits is rejected', some_frac_digit); return
+        fp = res.f[0]
+        report('C09/K3b/value-altered', 'the value read differs from the digits written (underscores are separators only)', z3.Or(tobv(fp.f[1], 64) != W, z3.And(some_frac_digit, tobv(fp.f[2], 64) != F)))
+        if len(part.samples) < 1: part.samples.append({'whole_chars': nw, 'fraction_chars': nf})
+    M.explore(entry, on_path)
+    part.queries += M.stats['smt']; part.encoded = set(M.encoded); part.models = set(M.models_used)
+    return part
+
+@replay_factory('fixed_point')
+def _replay_fixed_point(L):
+    def rp(ctx):
+        from fractions import Fraction
+        r = ctx.replay({'cmd': 'parse', 'source': KC.program_with_time('T#%ss' % L)})
+        if 'panic' in r: return True, r
+        clean = L.replace('_', '')
+        want_ns = int(Fraction(clean) * 10 ** 9)
+        if not r.get('ok'): return True, {'literal': 'T#%ss' % L, 'rejected': r.get('diag')}
+        m = re.search(r'interval: Duration \{ seconds: (-?\d+), nanoseconds: (-?\d+)', r['debug'])
+        got = int(m.group(1)) * 10 ** 9 + int(m.group(2)) if m else None
+        return got != want_ns, {'literal': 'T#%ss' % L, 'parsed_ns': got, 'expected_ns': want_ns}
+    return rp
+
+@kernel('K3b dsl.fixed_point_parse')
+def k3b(ctx, kr):
+    global _CTX
+    _CTX = ctx
+    jobs = [(1, 3), (2, 4), (3, 2)] + ([(2, 6), (4, 5)] if ctx.tier == 'thorough' else [])
+    kr.bounds = 'texts W.F with |W| in 1..3, |F| in 2..4 characters, each a symbolic digit or underscore (first character a digit)'
+    for part in par_map(_k3b_job, jobs): merge_part(kr, part)
+    P = ctx.program()
+    kr.functions = fn_paths(P, getattr(kr, '_enc', set()))
+    kr.assumptions = ['str::parse::<u64> by contract; reference: underscores are separators, the fraction is scaled to 15 digits']
+    kr.exhaustive = True
+
+KERNELS = [k3a, k3b, k4]
